@@ -265,6 +265,7 @@ def run(ctx):
     if nret5 == 0:
         raise AnalysisError("get_func_source has no return", "get_func_source")
 
+    _c17_6(ctx, repo)
 
 def _is_task_receiver(mod, fn, recv: str) -> bool:
     """Receiver is a Task object: annotated parameter, or assigned from a registry lookup / named *task*."""
@@ -333,3 +334,33 @@ def _reads(node, attr: str, tainted: dict):
         if isinstance(n, ast.Name) and n.id in tainted:
             return f"via `{n.id}`, which {tainted[n.id]}"
     return None
+
+
+def _c17_6(ctx, repo):
+    """C17.6: Task.__init__ computes the hash after _validate() has rewritten the hashed option dicts."""
+    from ..cfg import CFG
+
+    m = repo.mod(TASK)
+    r6 = ctx.rule("C17.6", "the constructor hashes the task after _validate() has normalised the hashed option dicts", floor=1)
+    init = m.func("Task.__init__")
+    val = m.func("Task._validate")
+    rewrites = any(isinstance(n, ast.Call) and isinstance(n.func, ast.Attribute) and n.func.attr == "pop" for n in ast.walk(val)) or any(
+        isinstance(n, ast.Assign) and isinstance(n.targets[0], ast.Subscript) and "options" in src(n.targets[0].value) for n in ast.walk(val)
+    )
+    if not rewrites:
+        r6.good(f"{m.rel}:Task._validate:no-rewrite", "_validate no longer rewrites option dicts")
+        return
+    cfg = CFG(init)
+    vals = [cfg.node_of(c) for c in calls_in(init, shallow=True) if call_name(c) == "self._validate"]
+    hashes = [cfg.node_of(c) for c in calls_in(init, shallow=True) if call_name(c) == "self.recompute_hash"]
+    if not vals or not hashes:
+        raise AnalysisError("Task.__init__: _validate()/recompute_hash() calls not found", "Task.__init__")
+    ok = all(cfg.must_pass(v, hashes) for v in vals)
+    r6.check(
+        ok,
+        f"{m.rel}:Task.__init__:validate-then-hash",
+        "Task.__init__ calls recompute_hash() before _validate(), which rewrites the hashed override dict (cache -> cache_scope, strings -> enums): the stored hash is the hash of the un-normalised options, so "
+        "`f.options(cache=False).is_valid()` is False right after construction (and after unpickling) and a task that returns such a task value is re-executed on every run",
+        m.rel,
+        init.lineno,
+    )
